@@ -77,6 +77,7 @@ pub enum Feat {
     IncludeEntry,
     AttachedCommodity,
     PostingClearState,
+    TrailingWsEof,
 }
 
 pub const ALL_FEATS: &[Feat] = &[
@@ -132,6 +133,7 @@ pub const ALL_FEATS: &[Feat] = &[
     Feat::IncludeEntry,
     Feat::AttachedCommodity,
     Feat::PostingClearState,
+    Feat::TrailingWsEof,
 ];
 
 pub fn feat_name(f: Feat) -> &'static str {
@@ -188,6 +190,7 @@ pub fn feat_name(f: Feat) -> &'static str {
         Feat::IncludeEntry => "include",
         Feat::AttachedCommodity => "attached-commodity",
         Feat::PostingClearState => "posting-clear-state",
+        Feat::TrailingWsEof => "whitespace-only-last-line-at-eof",
     }
 }
 
@@ -1076,6 +1079,17 @@ impl SynGen {
             for _ in 0..extra {
                 text.push('\n');
             }
+        }
+        // vertical-space ::= sp* new-line, new-line ::= ... | <EOF>: a last line holding only
+        // horizontal whitespace and ended by end of file is a legal trailing separator.
+        let trailing_ws = self.feat(Feat::TrailingWsEof, 1, 8);
+        let ws_kind = self.rng.below(3);
+        if trailing_ws && text.ends_with('\n') {
+            text.push_str(match ws_kind {
+                0 => "    ",
+                1 => "\t",
+                _ => " ",
+            });
         }
         if self.feat(Feat::Crlf, 1, 4) {
             text = text.replace('\n', "\r\n");
